@@ -200,6 +200,29 @@ def check(res, tier):
                        ("identifier", "Die Zahl grüße_ößü ist 1. ")):
         for el, err in (("unknown-name", "Die Zahl z ist q."), ("missing-dot", "Die Zahl z ist 1"), ("type-error", 'Die Zahl z ist "x".')):
             corpus.append(("wide-before-error:%s:%s" % (wl, el), {"main.ddp": H + before + err + "\n"}))
+    # two errors in one statement: the first one is reported (and makes the parser suppress what follows), the second one leaves a
+    # stand-in in the tree — at top level and inside blocks, where the statement is looked at again together with its block
+    firsts = {"article-w": ("Die Wahrheitswert b ist wahr, wenn %s.", True), "article-z": ("Das Zahl z ist %s.", False)}
+    seconds = {"gleich": "2 gleich ist", "ungleich": "1 ungleich", "groesser": "2 größer als ist", "plus": "1 plus", "minus": "1 minus", "mal": "2 mal",
+               "durch": "2 durch", "und": "wahr und", "oder": "wahr oder", "shift": "8 um 2 Bit nach", "hoch": "2 hoch", "klammer": "(1 plus )"}
+    wraps = {"top": "%s\n", "wenn": "Wenn wahr, dann:\n\t%s\n", "solange": "Solange falsch, mache:\n\t%s\n",
+             "funktion": 'Die Funktion f gibt nichts zurück, macht:\n\t%s\nUnd kann so benutzt werden:\n\t"mach f"\n',
+             "wenn-in-solange": "Solange falsch, mache:\n\tWenn wahr, dann:\n\t\t%s\n"}
+    for fl, (ftmpl, _) in firsts.items():
+        for sl, sec in seconds.items():
+            for wl, w in wraps.items():
+                corpus.append(("second-error-in-statement:%s:%s:%s" % (fl, sl, wl), {"main.ddp": H + w % (ftmpl % sec)}))
+    # errors inside the body of a generic function come out when it is instantiated, wrapped in the diagnostic of the call: at the
+    # last token of the body (the saved tokens end there), in the middle, in the first statement
+    GEN = 'Die generische Funktion Zeige mit dem Parameter a vom Typ T, gibt %s zurück, macht:\n%sUnd kann so benutzt werden:\n\t"Zeige <a>"\n\n%s\n'
+    for gl, ret, body, use in (("missing-final-dot", "nichts", '\tSchreibe den Text "hi" auf eine Zeile\n', "Zeige 1."),
+                               ("missing-zurueck", "ein T", "\tGib a\n", "Die Zahl z ist Zeige 1."),
+                               ("unfinished-expression", "ein T", "\tGib a plus\n", "Die Zahl z ist Zeige 1."),
+                               ("open-paren", "ein T", "\tGib (a\n", "Die Zahl z ist Zeige 1."),
+                               ("error-in-the-middle", "nichts", '\tSchreibe den Text "a" auf eine Zeile.\n\tSchreibe den Text auf eine Zeile.\n\tSchreibe den Text "c" auf eine Zeile.\n', "Zeige 1."),
+                               ("unknown-name", "ein T", "\tGib unbekannt zurück.\n", "Die Zahl z ist Zeige 1."),
+                               ("type-error-for-one-type", "ein T", "\tGib a plus 1 zurück.\n", 'Der Text z ist Zeige "t".')):
+        corpus.append(("generic-body-error:" + gl, {"main.ddp": H + GEN % (ret, body, use)}))
     corpus += illtyped_contexts(quick) + import_clashes()
     for name, files in corpus:
         reqs.append(("corpus:" + name, {"files": files, "main": "main.ddp"}))
@@ -233,7 +256,9 @@ def check(res, tier):
             texts[name] = t.split("\n")
         for name, hx in (rq.get("hexfiles") or {}).items():
             texts[name] = bytes.fromhex(hx).decode("utf-8", "replace").split("\n")
-        for d in diags:
+        # the diagnostics a delivered one carries inside (the errors of a failed generic instantiation) are printed with it:
+        # they name a file and a range like any other
+        for d in diags + list(a.get("wrapped") or []):
             ndiags += 1
             f = d["file"]
             if f not in texts:
